@@ -75,14 +75,13 @@ static inline std::vector<uint64_t> merkle(const std::vector<uint64_t> &leaves, 
 static inline uint64_t root7(uint64_t y)
 {
     // 7^-1 mod (p-1): p-1 = 2^32 * 3 * 5 * 17 * 257 * 65537, gcd(7, p-1) = 1
-    static uint64_t d = 0;
-    if (!d) {
+    static const uint64_t d = [] { // (initialised once, thread-safely: the reference is also used by concurrent callers)
         // extended Euclid on (7, p-1) with signed 128-bit
         __int128 a = 7, b = (__int128)(PR - 1), x0 = 1, x1 = 0;
         while (b) { __int128 q = a / b, t = a - q * b; a = b; b = t; t = x0 - q * x1; x0 = x1; x1 = t; }
         __int128 m = (__int128)(PR - 1);
-        d = (uint64_t)(((x0 % m) + m) % m);
-    }
+        return (uint64_t)(((x0 % m) + m) % m);
+    }();
     return pw(y, d);
 }
 struct Mat { uint64_t a[12][12]; };
